@@ -114,4 +114,13 @@ example : isInvalidArgument (crossCheckHandlers [] [⟨some 'x', []⟩] [⟨some
 -- an unknown key behind the sub-group key is refused (the pinned code skipped it: `fix:` 5c5d169)
 example : isInvalidArgument (sgEval true ["-s", "--bogus"]) = true := by decide +kernel
 
+/-- **Known finding `subgroup-mandatory-not-enforced`** (the unchanged tree, C02): `-m -s -a` is accepted by the
+    single handler and through the group although `-n`, a *mandatory* argument of the handler behind the
+    sub-group argument `-s`, is missing — while the same handler refuses a missing mandatory argument of its
+    own (`-m` alone: `-s` is mandatory).  Consequence of `C02_sub_handler_end_checks_never_run`. -/
+theorem C02_finding_sub_mandatory_not_enforced :
+    (sgSub.args.any (fun d => d.mandatory && d.key == ⟨some 'n', "num".toList⟩)) = true ∧
+    (sgEval true ["-m", "-s", "-a"]).isOk = true ∧ (sgGroup true [1, 0] ["-m", "-s", "-a"]).isOk = true ∧
+    isRuntimeError (sgEval true ["-m"]) = true := by decide +kernel
+
 end CelmaVerif.Props.C08s
